@@ -10,6 +10,7 @@ import ComposeVerif.Model.Paths
 import ComposeVerif.Model.Secrets
 import ComposeVerif.Model.Schema
 import ComposeVerif.Model.Reset
+import ComposeVerif.Model.ExtendsMerge
 import ComposeVerif.Gen.Schema
 import ComposeVerif.Gen.Tables
 /-!
@@ -28,10 +29,11 @@ the *whole* dictionary pipeline is inside the model and can be run against `load
     `load`:
         empty-model test → project-name test → [name := projectName; Normalize]
 
-Scope of this composition (exactly what the correspondence stream `pipeline.load` drives): documents handed over as
-`ConfigFile.Config` trees (so YAML decoding and the `!reset` processors are out — they are C04's / C01's models), with
-`SkipExtends` and `SkipInclude` set (the two stages that read the file system have their own world models in
-`Model/Extends*`, `Model/Include*`).  `convert` and `fixEmpty` are the identity on trees built from `Val`
+Scope of this composition (exactly what the correspondence streams `pipeline.load` / `pipeline.loadY` drive): documents
+handed over as `ConfigFile.Config` trees, or files given as YAML text (`loadY`: several `---` documents, `!reset` /
+`!override` through C04's `Reset` model); `SkipInclude` set and `extends` restricted to same-file bases (the stages that
+read the file system have their own world models in `Model/Extends*`, `Model/Include*`; `ApplyExtends` itself is in:
+C05's model on the empty file system).  `convert` and `fixEmpty` are the identity on trees built from `Val`
 (`convert_ofVal`, `fixEmpty_ofVal` in `Lemmas/Pipeline.lean`), so the pipeline is stated on `Val`.
 
 Everything else is *not* assumed away: the option flags, the order of the stages, which stage sees which tree, the
@@ -70,6 +72,9 @@ structure Opts where
   skipDefaultValues : Bool := false
   resolvePaths : Bool := true
   skipNormalization : Bool := false
+  /-- `SkipExtends`; when extends are applied, only *same-file* bases can resolve: the composed model runs
+  `ApplyExtends` on the empty file system (C05's world model `Model/Extends*.lean` carries the cross-file part) -/
+  skipExtends : Bool := true
 deriving Repr, DecidableEq
 
 structure Cfg where
@@ -86,6 +91,8 @@ structure Cfg where
   clean : String → String
   /-- `loader.omitempty` -/
   omitPats : List (List String)
+  /-- `ConfigFiles[0].Filename`: the file name the extends cycle tracker records for same-file steps -/
+  mainFile : String := "compose.yaml"
 
 /-! ## embeddings between `Val` and the Go-level tree of the first stages -/
 
@@ -210,6 +217,15 @@ def resolveEnvironment (env : List (String × String)) (dict : KVs) : KVs :=
 def interpStage (c : Cfg) (cfg : KVs) : Out KVs :=
   if c.opts.skipInterpolation then .ok cfg else ofInterp (Interp.interpolate c.interp cfg)
 
+def ofExtends {α : Type} : Extends.Out α → Out α
+  | .ok a => .ok a
+  | .err _ => .err "extends"
+  | .panic s => .panic s
+
+/-- `if !opts.SkipExtends { err = ApplyExtends(ctx, cfg, opts, ct, processors...) }` with no other file reachable -/
+def extendsStage (c : Cfg) (cfg : KVs) : Out KVs :=
+  if c.opts.skipExtends then .ok cfg else ofExtends (Extends.applyExtends (Extends.realEnv c.mainFile []) cfg)
+
 /-- `processRawYaml` from `override.Merge(dict, cfg)` on -/
 def mergeStages (c : Cfg) (dict : Val) (cfg : KVs) : Out Val :=
   (ofMerge "merge" (Merge.merge dict (.map cfg))).bind fun dict =>
@@ -221,14 +237,15 @@ def mergeStages (c : Cfg) (dict : Val) (cfg : KVs) : Out Val :=
 
 /-- `processRawYaml(raw)` with `SkipExtends`, `SkipInclude`, no post-processor: one document merged into `dict` -/
 def processDoc (c : Cfg) (dict : Val) (cfg : KVs) : Out Val :=
-  (interpStage c cfg).bind (mergeStages c dict)
+  (interpStage c cfg).bind fun cfg => (extendsStage c cfg).bind (mergeStages c dict)
 
 /-- `processRawYaml(raw, processor)` for a document read from YAML text: `decoder.Decode(&ResetProcessor{…})` gives
 the tree without its `!reset` nodes and the recorded paths (C04's `Reset.readDoc`); the tree is interpolated; the
 processor deletes the recorded paths from the model built so far (`processor.Apply(dict)`) *before* the merge -/
 def processNode (c : Cfg) (dict : Val) (n : Reset.YNode) : Out Val :=
   match Reset.readDoc n with
-  | (.map cfg, paths) => (interpStage c cfg).bind (mergeStages c (Reset.applyNull paths dict TPath.root))
+  | (.map cfg, paths) =>
+    (interpStage c cfg).bind fun cfg => (extendsStage c cfg).bind (mergeStages c (Reset.applyNull paths dict TPath.root))
   | _ => .err "toplevel"
 
 /-- the decode loop of `loadYamlFile` over the documents of one file -/
